@@ -73,6 +73,7 @@ def plan(seed, overrides=None):
     recipes["cdesc0"] = G.gen_cir_description(rr, degenerate=rr.random() < cfg["degenerate_rate"])
     recipes["doc0"] = {"kind": "value", "v": enc(G.gen_document(rr, python_form=True))}
     recipes["ndoc0"] = {"kind": "value", "v": enc(G.gen_document(rr, python_form=False))}
+    recipes["entry0"] = {"kind": "value", "v": enc(G.gen_cir_entry(rr, "E1", ["0", "1", "a"]))}
     z = G.cx(rr)
     recipes["z0"] = {"kind": "value", "v": enc(G.notation(rr, z))}
 
@@ -278,7 +279,7 @@ def _script(r, client, world, counter):
             elif k == "to_complex":
                 add("ld.to_complex", {"z": P("z0"), "degree": r.random() < 0.5})
             elif k == "gen_component":
-                add("ld.undictify_circuit", {"doc": P("cdesc0")})
+                add("ld.gen_component", {"entry": P("entry0")})
             elif k == "undictify_circuit":
                 h = add("ld.undictify_circuit", {"doc": P("cdesc0")})
                 hs = add("cir.dc", {"cir": h})
